@@ -5,7 +5,7 @@
 //
 // input lines
 //   SSET <prob>                                  -> n (opcode arity param)*
-//   GEN  <type> <prob> <seed> <steps>            -> OK | dump | savehex | ret | dump' | savehex' | sig sig' | valid' | dump with cached signatures cleared
+//   GEN  <type> <prob> <seed> <steps>            -> OK | dump | savehex | ret | dump' | savehex' | sig sig' | valid' | dump with cached signatures cleared | return value of save
 //   LOAD <type> <prob> <seed> <steps> <hex|-> [flags]
 //                                                -> OK | ret | dump0 | savehex0 | valid0 | dump1 | savehex1 | valid1 | problem0 problem1
 //   (target of LOAD = the object GEN builds from the same type/prob/seed/steps; flags: 's' = then every value
@@ -301,10 +301,13 @@ template<class T> void clear_sigs(population<T> &p)
 }
 template<class T> void clear_sigs(summary<T> &s) { clear_sigs(s.best.solution); }
 
+bool last_save_ok = true;  // return value of the most recent save()
+bool long_elapsed = false;    // type SUMGAX: a run longer than 2^31 ms
+
 template<class T> std::string save_s(const T &x)
 {
   std::ostringstream o;
-  x.save(o);
+  last_save_ok = x.save(o);
   return o.str();
 }
 
@@ -463,6 +466,8 @@ template<class T> summary<T> gen(tag<summary<T>>, problem &p, unsigned steps)
 {
   summary<T> s;
   s.elapsed = std::chrono::milliseconds(random::between(0u, 2000000000u));
+  if (long_elapsed)
+    s.elapsed = std::chrono::milliseconds(2147483648ll + random::between(0u, 2000000000u) * 1000ll);
   s.mutations = random::between<std::uintmax_t>(0, std::numeric_limits<std::uintmax_t>::max());
   s.crossovers = random::between<std::uintmax_t>(0, 1000000);
   s.gen = random::between(0u, 100000u);
@@ -611,6 +616,7 @@ template<class T> void run(const std::vector<std::string> &w, problem &p, proble
   if (w[0] == "GEN")
   {
     const std::string d0(dump_s(x)), s0(save_s(x)), g0(sig(x));
+    const bool save_ok(last_save_ok);
     T y(fresh(tag<T>(), p));
     std::istringstream in(s0);
     const bool ret(do_load(y, in, p));
@@ -618,7 +624,7 @@ template<class T> void run(const std::vector<std::string> &w, problem &p, proble
     clear_sigs(xc);
     std::cout << "OK | " << d0 << " | " << to_hex(s0) << " | " << ret << " | " << dump_s(y) << " | "
               << to_hex(save_s(y)) << " | " << g0 << ' ' << (valid(y) ? sig(y) : std::string("invalid"))
-              << " | " << valid(y) << " | " << dump_s(xc) << '\n';
+              << " | " << valid(y) << " | " << dump_s(xc) << " | " << save_ok << '\n';
   }
   else
   {
@@ -749,7 +755,11 @@ int main()
       else if (t == "POPDE") run<population<i_de>>(w, ps.de, ps2.de);
       else if (t == "POPTEAM") run<population<team<i_mep>>>(w, ps.mep(k), ps2.mep(k));
       else if (t == "SUMMEP") run<summary<i_mep>>(w, ps.mep(k), ps2.mep(k));
-      else if (t == "SUMGA") run<summary<i_ga>>(w, ps.ga, ps2.ga);
+      else if (t == "SUMGA" || t == "SUMGAX")
+      {
+        long_elapsed = (t == "SUMGAX");
+        run<summary<i_ga>>(w, ps.ga, ps2.ga);
+      }
       else if (t == "SUMDE") run<summary<i_de>>(w, ps.de, ps2.de);
       else if (t == "DIST" || t == "DISTX")
       {
